@@ -437,6 +437,10 @@ class Functor(pg_object.Object, utils.Functor):
     for i in range(len(args)):
       arg_spec = signature.args[i]
       arg_name = arg_spec.name
+      if arg_name in kwargs:
+        raise TypeError(
+            f'{signature.id}() got multiple values for argument {arg_name!r}.'
+        )
       if arg_name in self._specified_args:
         if not override_args:
           raise TypeError(
